@@ -568,4 +568,12 @@ theorem collapse_masked_value (ys vars : List Float) (masked : List Bool) (r : N
 
 example : binContents ["a", "b", "c", "d"] [(1, 2)] = [["b", "c"]] := by decide
 
+/-- `collapse_plateaus(coord=c)` for ANY per-point coordinate `c` (it need not be sorted inside a plateau):
+the interval `[min, max + 1)` of the integer / datetime coordinate values of a bin contains every one of them -/
+theorem collapse_interval_any_coordinate (cs : List ℤ) (r : Nat × Nat) (a : ℤ) (l : List ℤ)
+    (h : extract cs r = a :: l) : ∀ x ∈ extract cs r, minL a l ≤ x ∧ x < maxL a l + 1 := by
+  rw [h]; exact collapse_interval_contains_int a l
+
+example : ∀ x ∈ extract ([30, 10, 20, 5, 5, 7] : List ℤ) (0, 3), (10 : ℤ) ≤ x ∧ x < 31 := by decide
+
 end ScnVerif.Props.C19
